@@ -164,7 +164,7 @@ static void note_observer (void) {
 		if (cause_done (x) && !got) mc_fail ("note %c is not notified at quiescence although it or an ancestor was notified (or a deadline on its path passed)", letters[x]);
 	}
 	/* rescue: release whoever waits on a note that legitimately never fires */
-	for (x = 0; x < NN; x++) if (note[x] != NULL && !freed[x] && !free_begun[x]) nsync_note_notify (note[x]);
+	for (x = 0; x < NN; x++) if (note[x] != NULL && !freed[x] && !free_begun[x]) { notify_begin (x); nsync_note_notify (note[x]); }
 	left = mc_quiesce ();
 	mc_assert (left == 0, "threads 0x%x still blocked after every live note was notified", left);
 }
